@@ -156,7 +156,7 @@ class Address(BaseAddress):
                         partial_name[0]
                         for i in self.package
                         for partial_name in i.split("_")
-                        if i != self.api_naming.version
+                        if i != self.api_naming.version and partial_name
                     ),
                     self.module,
                 )
